@@ -795,7 +795,7 @@ open Base.Multi Base.LineStruct in
 theorem bfix_multiStruct_commentSeq (params action : Base.KV) (old new : List Tok)
     (h : Base.fixByOwner (MOwner.name .multiStruct) params action old = some (.ok new)) :
     ∃ ty f act, dget action "type" = .ok ty ∧ msFnOf ty = .ok f ∧ dget action "action" = .ok act ∧
-      match msKind f act with
+      match msKind f act old with
       | .insert | .noop => commentSeq new = commentSeq old
       | .collapse => 2 ≤ old.length → (commentSeq new = commentSeq old ↔ commentSeq (middle old) = [])
       | .join => commentSeq new = commentSeq (removeComments old)
@@ -804,7 +804,7 @@ theorem bfix_multiStruct_commentSeq (params action : Base.KV) (old new : List To
   have hm := run_fixM .multiStruct params action old new (mowner_all _) h
   obtain ⟨ty, f, act, h1, h2, h3, he⟩ := fixMS_effect _ _ action old new hm
   refine ⟨ty, f, act, h1, h2, h3, ?_⟩
-  cases hk : msKind f act <;> simp only [hk] at he ⊢
+  cases hk : msKind f act old <;> simp only [hk] at he ⊢
   · exact he.1.commentSeq.symm
   · intro hlen; exact collapse_commentSeq_iff _ old new he hlen
   · obtain ⟨t0, M, D, hl, hn⟩ := he
@@ -814,18 +814,62 @@ theorem bfix_multiStruct_commentSeq (params action : Base.KV) (old new : List To
   · rw [he]; exact joinAssign_commentSeq old
   · rw [he]
 
+open Base.Multi Base.LineStruct in
+/-- the guard the `remove` branches carry since the repairs c6e66e8 / 8e6c5bb: when it does not fire and the
+    region holds no text line of a delimited comment, nothing comment-like stands between the first and the
+    last token -/
+theorem keepGuard_false_commentSeq (l : List Tok) (hg : keepGuard l = false)
+    (hd : ∀ t ∈ middle l, t.kind ≠ .dcText) : commentSeq (middle l) = [] := by
+  unfold keepGuard at hg
+  unfold commentSeq middle
+  rw [List.flatMap_eq_nil_iff]
+  intro t ht
+  have h1 := List.any_eq_false.mp hg t ht
+  have h2 := hd t (by simpa [middle] using ht)
+  simp only [isCommentInst, Bool.or_eq_true, beq_iff_eq, not_or] at h1
+  have : t.isCommentLike = false := by
+    unfold Tok.isCommentLike Kind.isCommentLike
+    cases hk : t.kind <;> simp_all
+  simp [this]
+
+open Base.Multi Base.LineStruct in
+/-- **multiline_structure `remove` branches after the repair** (was the genuine defect
+    `multiStruct_commentLost`: `new_line_after_comma: no` turned `1, -- one ⏎ 2` into `1, 2`): a `remove`
+    branch that collapses a region of at least two tokens without a delimited-comment text line keeps the
+    comment / pragma / preprocessor sequence, for every region -/
+theorem bfix_multiStruct_remove_keeps_comments (params action : Base.KV) (old new : List Tok)
+    (h : Base.fixByOwner (MOwner.name .multiStruct) params action old = some (.ok new))
+    (hlen : 2 ≤ old.length) (hd : ∀ t ∈ middle old, t.kind ≠ .dcText) :
+    ∃ ty f act, dget action "type" = .ok ty ∧ msFnOf ty = .ok f ∧ dget action "action" = .ok act ∧
+      (msKind f act old = .collapse ∨ msKind f act old = .noop → commentSeq new = commentSeq old) := by
+  have hm := run_fixM .multiStruct params action old new (mowner_all _) h
+  obtain ⟨ty, f, act, h1, h2, h3, he⟩ := fixMS_effect _ _ action old new hm
+  refine ⟨ty, f, act, h1, h2, h3, ?_⟩
+  intro hk
+  rcases hk with hk | hk
+  · rw [hk] at he
+    have hg : keepGuard old = false := by
+      cases hc' : keepGuard old with
+      | false => rfl
+      | true =>
+        exfalso
+        by_cases a1 : valIs act "insert" = true
+        · cases f <;> simp [msKind, a1] at hk <;> (split at hk <;> simp at hk)
+        · by_cases a2 : valIs act "remove" = true
+          · cases f <;> simp [msKind, a1, a2, hc'] at hk
+          · by_cases a3 : valIs act "insert_and_move_comment" = true
+            · cases f <;> simp [msKind, a1, a2, a3] at hk
+            · cases f <;> simp [msKind, a1, a2, a3] at hk
+    exact (collapse_commentSeq_iff _ old new he hlen).mpr (keepGuard_false_commentSeq old hg hd)
+  · rw [hk] at he; rw [he]
+
 open Base.Multi in
-/-- **GENUINE DEFECT (not documented)**: the `remove` branches of multiline_structure delete comments.
-    `new_line_after_comma: no` on `1, -- one ⏎ 2` hands `_fix_new_line_after_comma` the region
-    `, ␣ --one ⏎ ␣␣ 2` and gets `, ␣ 2` back; the same happens for `last_paren_new_line: no`,
-    `close_paren_new_line: no`, `open_paren_new_line: no` and `first_paren_new_line: no` -/
-theorem multiStruct_commentLost :
+/-- the witness of the former defect, now kept: the region `, ␣ --one ⏎ ␣␣ 2` is handed back unchanged -/
+theorem multiStruct_comment_region_kept :
     let old : List Tok := [⟨9, .code, [',']⟩, ⟨Gen.wsCls, .ws, [' ']⟩, ⟨Gen.commentCls, .comment, "-- one".toList⟩,
       ⟨Gen.crCls, .cr, ['\n']⟩, ⟨Gen.wsCls, .ws, "    ".toList⟩, ⟨9, .code, ['2']⟩]
     let act : Base.KV := [("type", .dict [("fn", .str "_fix_new_line_after_comma".toList)]), ("action", .str "remove".toList)]
-    ∃ new, Base.fixByOwner (MOwner.name .multiStruct) [] act old = some (.ok new) ∧
-      commentSeq old = ["-- one".toList] ∧ commentSeq new = [] ∧ codeSeq id new = codeSeq id old :=
-  ⟨[⟨9, .code, [',']⟩, ⟨Gen.wsCls, .ws, [' ']⟩, ⟨9, .code, ['2']⟩], by decide +kernel, by decide, by decide, by decide⟩
+    Base.fixByOwner (MOwner.name .multiStruct) [] act old = some (.ok old) := by decide +kernel
 
 open Base.Multi Base.LineStruct in
 /-- **multiline_structure, comment still ends its line (every context)**: the `insert` branches always;
@@ -834,7 +878,7 @@ open Base.Multi Base.LineStruct in
 theorem bfix_multiStruct_celSafe (params action : Base.KV) (old new : List Tok)
     (h : Base.fixByOwner (MOwner.name .multiStruct) params action old = some (.ok new)) :
     ∃ ty f act, dget action "type" = .ok ty ∧ msFnOf ty = .ok f ∧ dget action "action" = .ok act ∧
-      match msKind f act with
+      match msKind f act old with
       | .insert | .noop => CelSafe old new
       | .collapse => 2 ≤ old.length → endsLC (old.take 1) = false → CelSafe old new
       | .join => startsCr old = false → CelSafe old new
@@ -842,7 +886,7 @@ theorem bfix_multiStruct_celSafe (params action : Base.KV) (old new : List Tok)
   have hm := run_fixM .multiStruct params action old new (mowner_all _) h
   obtain ⟨ty, f, act, h1, h2, h3, he⟩ := fixMS_effect _ _ action old new hm
   refine ⟨ty, f, act, h1, h2, h3, ?_⟩
-  cases hk : msKind f act <;> simp only [hk] at he ⊢
+  cases hk : msKind f act old <;> simp only [hk] at he ⊢
   · exact he.2
   · intro hlen ha; exact collapse_celSafe' _ old new he hlen ha
   · intro hs; rw [he]; exact joinAssign_celSafe old hs
